@@ -157,7 +157,10 @@ class RestrictedRegistry:
             if 'target_info' in self._name_set and self._registry._target_info:
                 target_info_metric = self._registry._target_info_metric()
             for name in self._name_set:
-                if name != 'target_info' and name in self._registry._names_to_collectors:
+                # 'target_info' is looked up like any other name: it belongs to
+                # an empty placeholder collector when target info is configured,
+                # and to a registered collector (e.g. Info('target')) otherwise.
+                if name in self._registry._names_to_collectors:
                     collectors.add(self._registry._names_to_collectors[name])
         if target_info_metric:
             yield target_info_metric
